@@ -49,7 +49,7 @@ var profiles = map[string]profile{
 	"pkg/metrics":             {timeRand, false},
 	"pkg/congestion":          {timeRand, false},
 	"pkg/rng":                 {timeRand, false},
-	"pkg/protocol/serveruser": {timeRand, false},
+	"pkg/protocol/serveruser": {fullAtomic, true},
 }
 
 var defaultName = map[string]string{"time": "time", "math/rand": "rand", "crypto/rand": "rand", "sync": "sync", "sync/atomic": "atomic", "net": "net"}
